@@ -529,6 +529,74 @@ def _phi(t, ctx):
         ctx._busy.discard(key)
 
 
+def count_of(t, ctx, depth=0):
+    """number of items an iterator / collection term yields under the frame: ranges, slices of known length, the adaptors that keep,
+    cut or combine counts, `collect` / `Vector::new` of such, and in-crate functions whose (single reachable) return site is one.
+    Uneval for anything else (filters, unknown sources)."""
+    if depth > 8:
+        raise Uneval('count depth')
+    t = _strip(t)
+    k = tag(t)
+    if k == 'range':
+        lo, hi = tev(t[1], ctx), tev(t[2], ctx)
+        return max(0, hi - lo)
+    if k == 'rangeincl':
+        lo, hi = tev(t[1], ctx), tev(t[2], ctx)
+        return max(0, hi - lo + 1)
+    if k == 'call' and t[1]:
+        s_ = short(t[1])
+        a = t[2]
+        incrate = ctx.ncx is not None and t[1] in ctx.ncx.prog.pdb.bodies
+        if not incrate:
+            if s_ in ('iter', 'iter_mut', 'into_iter', 'map', 'enumerate', 'rev', 'copied', 'cloned', 'by_ref', 'collect', 'to_vec', 'to_owned', 'clone',
+                      'inspect', 'peekable', 'into_boxed_slice', 'into_vec', 'as_slice', 'deref', 'from', 'into') and a:
+                return count_of(a[0], ctx, depth + 1)
+            if s_ == 'skip' and len(a) == 2:
+                return max(0, count_of(a[0], ctx, depth + 1) - tev(a[1], ctx))
+            if s_ == 'take' and len(a) == 2:
+                return min(count_of(a[0], ctx, depth + 1), tev(a[1], ctx))
+            if s_ == 'zip' and len(a) == 2:
+                return min(count_of(a[0], ctx, depth + 1), count_of(a[1], ctx, depth + 1))
+            if s_ == 'chain' and len(a) == 2:
+                return count_of(a[0], ctx, depth + 1) + count_of(a[1], ctx, depth + 1)
+            if s_ == 'step_by' and len(a) == 2:
+                st_ = tev(a[1], ctx)
+                n_ = count_of(a[0], ctx, depth + 1)
+                return (n_ + st_ - 1) // st_ if st_ > 0 else 0
+            if s_ == 'from_elem' and len(a) == 2:
+                return tev(a[1], ctx)
+            raise Uneval('count of %s' % s_)
+        # in-crate: the value returned at the reachable return site(s)
+        h = ctx.ncx.prog.func(t[1])
+        if h is None:
+            raise Uneval('callee')
+        if s_ in ('into_iter', 'iter', 'to_vec', 'data', 'clone', 'to_vector') and a:
+            return count_of(a[0], ctx, depth + 1) if not _is_matrix_rows(t[1]) else _uneval('rows of a matrix')
+        sub = Frame(h, tuple(a), ctx, depth=ctx.depth + 1)
+        live = sub.live_blocks()
+        vals = []
+        for d in h._defs.get(0, []):
+            if live is not None and d[1] not in live:
+                continue
+            rt = h.rvalue_term(d[3], d[1]) if d[0] == 'assign' else h.call_term(d[2], d[1])
+            vals.append(count_of(rt, sub, depth + 1))
+        return _agree(vals)
+    if k == 'agg' and t[1] == 'array':
+        return len(t[3])
+    if k == 'agg' and t[1] == 'adt' and len(t[3]) == 1:
+        return count_of(t[3][0], ctx, depth + 1)          # a newtype around the data (Vector { v })
+    # a slice / vector whose length is an atom or otherwise evaluable
+    return tev(('len', t), ctx)
+
+
+def _is_matrix_rows(path):
+    return 'Matrix' in path and short(path) in ('into_iter', 'iter')
+
+
+def _uneval(why):
+    raise Uneval(why)
+
+
 def guard_value(g, ctx):
     """True / False when the canonical guard is decided in frame ctx, None otherwise"""
     try:
